@@ -54,7 +54,9 @@ def main():
                 viol = "VIOLATION property=%s" % prop in r.stdout
                 want = m.get("expect", {}).get(prop)
                 hit = [k for k in keys if want is None or re.search(want, k)]
-                if r.returncode == 2:
+                if m.get("benign"):
+                    status[prop] = "caught: silent (benign edit)" if r.returncode == 0 and not viol else "FALSE-ALARM: " + ", ".join(keys[:4])
+                elif r.returncode == 2:
                     status[prop] = "BUILD-ERROR"
                     print(r.stdout[-1500:])
                 elif r.returncode == 1 and viol and hit:
